@@ -231,15 +231,27 @@ def run_property(prop, tier, seed, workdir, evid_path, t0, only):
         for u in undecided:
             print('UNDECIDED: ' + u)
         rc = 2
+    kill = None
+    if tier == 'thorough' and rc == 0 and not os.environ.get('VERIF_NO_MUTANTS'):
+        # kill matrix (DESIGN 2.2 (e)): listed source mutations on a scratch copy; a survivor is a weakness of the contract, not a violation
+        import mutants
+        kill = []
+        for un in units:
+            m = load_unit(un)
+            names = set(m.PROPERTIES.get(prop, []))
+            sel = [mu['name'] for mu in getattr(m, 'MUTANTS', []) if set(mu['groups']) & names]
+            if sel:
+                print('[%s] kill matrix of unit %s: %d mutants' % (prop, un, len(sel)))
+                kill += [dict(unit=un, **r) for r in mutants.run_mutants(un, sel, jobs=int(os.environ.get('VERIF_JOBS', '16')))]
     write_evidence(evid_path, prop, tier, seed, t0, all_results, unit_info, assumptions, trusted, not_decided, nviol, skipped,
-                   undecided=undecided, known=known_hits)
+                   undecided=undecided, known=known_hits, kill=kill)
     print('[%s] tier=%s obligations=%d discharged=%d violations=%d undecided=%d wall=%.1fs -> exit %d' %
           (prop, tier, obligations, discharged, nviol, len(undecided), time.time() - t0, rc))
     return rc
 
 
 def write_evidence(path, prop, tier, seed, t0, results, unit_info, assumptions, trusted, not_decided, nviol, skipped,
-                   undecided=(), known=(), error=None):
+                   undecided=(), known=(), error=None, kill=None):
     main = [r for r in results if not r['canary']]
     canaries = [r for r in results if r['canary']]
     obligations = sum(r['props'] for r in main)
@@ -271,6 +283,7 @@ def write_evidence(path, prop, tier, seed, t0, results, unit_info, assumptions, 
             'not_decided': not_decided,
             'extraction': {un: {'files_sha256': info['files'], 'translation_pins': info['translation_pins'], 'atomic_rewrites': info['atomic_rewrites']} for un, info in unit_info.items()},
             'solver_seconds_total': round(sum(r['secs'] for r in main), 1),
+            'kill_matrix': kill if kill is not None else 'thorough tier only',
         },
         'assumptions': assumptions,
         'wall_s': round(time.time() - t0, 2),
